@@ -9,11 +9,54 @@ DE = "duration::DurationEstimator::"
 CWA = DE + "create_with_alignment"
 
 
+def _split_once_of(e):
+    """the `str::split_once(Y, ' ')` call whose Some payload `e` is (through `?` / ok_or wrappers)"""
+    n = 0
+    while n < 6 and e[0] == "field" and e[2] == "0" and e[1][0] == "variant":
+        n += 1
+        inner = e[1][1]
+        while inner[0] == "call" and (inner[1].endswith("Try>::branch") or inner[1].endswith("::ok_or_else") or inner[1].endswith("::ok_or")):
+            inner = inner[2][0]
+        if inner[0] == "call" and inner[1].endswith("str>::split_once") and len(inner[2]) == 2 and inner[2][1][0] == "c" and inner[2][1][1] == 32:
+            return inner
+        e = inner
+    return None
+
+
+def _str_pos(y):
+    """how many space-separated tokens were cut off in front of the string `y` (0 for the line itself)"""
+    if y[0] == "field" and y[2] == "1":
+        sc = _split_once_of(y[1])
+        if sc is not None:
+            inner = _str_pos(sc[2][0])
+            return None if inner is None else inner + 1
+        return None
+    if any(x[0] == "call" and "split" in x[1] for x in walk(y)):
+        return None
+    return 0
+
+
+def _token_pos(comp):
+    """index of the token a time component is parsed from, for the split_once form:
+    parse((split_once(Y, ' ') as Some).0.0) is token number _str_pos(Y)"""
+    ps = [x for x in walk(comp) if x[0] == "call" and x[1].endswith("str>::parse") and len(x[2]) == 1]
+    if len(ps) != 1:
+        return None
+    a = ps[0][2][0]
+    if a[0] == "field" and a[2] == "0":
+        sc = _split_once_of(a[1])
+        if sc is not None:
+            return _str_pos(sc[2][0])
+    return None
+
+
 def sign_atom(g):
     """normalise a guard `x < 0` / `x >= 0` (either polarity) to (canon(x), 'neg'|'nonneg')"""
     if g[0] not in ("true", "false"):
         return None
     pos, c = paths.bool_atoms(g)
+    from ..loops import resolve_splits
+    c = resolve_splits(c)
     if c[0] != "bin" or c[3][0] != "c" or float(c[3][1]) != 0.0:
         return None
     if c[1] == "Lt":
@@ -115,6 +158,8 @@ def run(ctx):
                 parsed = all("parse" in repr(s) for s in srcs)
                 if parsed and len(o0) == 1 and len(o1) == 1 and o0[0][0] != o1[0][0] and o0[0][0] in dom.get(o1[0][0], ()):
                     ctx.ok("C09-R1", "pushed times = (parse(token 1), parse(token 2)) * sampling_rate / (fperiod * 1e7)", cm.loc_of(t["span"]))
+                elif parsed and [_token_pos(c_) for c_ in val[2]] == [0, 1]:
+                    ctx.ok("C09-R1", "pushed times = (parse(token 1), parse(token 2)) * sampling_rate / (fperiod * 1e7) (tokens cut off with split_once(' '))", cm.loc_of(t["span"]))
                 else:
                     ctx.fail("C09-R1", b.path, "time tokens", "start/end are not parsed from the first/second token of the line (origins: %s / %s)" % ([x[0] for x in o0], [x[0] for x in o1]), cm.loc_of(t["span"]))
             else:
@@ -142,8 +187,20 @@ def run(ctx):
         eb = ExprBuilder(b)
         sts = stores(b, eb)
         found = {"end<-next.start": False, "next.start<-end": False}
+        from ..loops import resolve_splits
         for bb, i, st, tgt, root, chain, val in sts:
-            if chain[-2:] not in (["[]", "0"], ["[]", "1"]) or "times" not in show(root) and "times" not in show(tgt):
+            # elements reached through a borrow split (split_at_mut / first_mut) are elements of times
+            tgt, val = resolve_splits(tgt), resolve_splits(val)
+            # the element of a traversal of the whole vector: only the `< 0 => -1` normalisation
+            if tgt[0] == "field" and tgt[2] in ("0", "1") and tgt[1][0] == "field" and tgt[1][2] == "0" and tgt[1][1][0] == "variant" and tgt[1][1][1][0] == "call" \
+                    and "IterMut" in tgt[1][1][1][1] and tgt[1][1][1][1].endswith("::next") and "times" in show(tgt[1][1][1][2][0]) and not any(x[0] == "agg" and "Range" in x[1] for x in walk(tgt[1][1][1][2][0])):
+                gs_ = [sign_atom(g) for g in paths.guards(b, bb, eb)]
+                if val[0] == "c" and float(val[1]) == -1.0 and (canon(tgt), "neg") in gs_:
+                    ctx.ok("C09-R2", "negative %s normalised to -1 (traversal of all of times)" % show(tgt)[-20:], cm.loc_of(st["span"]))
+                else:
+                    ctx.fail("C09-R2", b.path, "store const", "an element of times is set to %s outside the `< 0 => -1` normalisation" % show(val)[:40], cm.loc_of(st["span"]))
+                continue
+            if not (tgt[0] == "field" and tgt[2] in ("0", "1") and tgt[1][0] == "idx") or "times" not in show(root) and "times" not in show(tgt):
                 if "times" in show(tgt):
                     ctx.fail("C09-R2", b.path, "store " + show(tgt)[:60], "unexpected store into times", cm.loc_of(st["span"]))
                 continue
